@@ -102,6 +102,21 @@ def s_insert(tab, Q=Query):
             .where(fld(t("conflict_where"), "cw") > 0))
 
 
+def s_insert_both_wheres(tab, Q=Query):
+    t = tab
+    return (Q.into(t("into")).columns(fld(t("columns"), "a")).insert(fld(t("values"), "v"))
+            .on_conflict(fld(t("conflict_target"), "id")).where(fld(t("conflict_where"), "cw") > 0)
+            .do_update(fld(t("do_update_field"), "a"), fld(t("do_update_value"), "dv") + 1)
+            .where(fld(t("do_update_where"), "uw") < 5).where(fld(t("do_update_where2"), "ux") < 6))
+
+
+def s_insert_target_where_only(tab, Q=Query):
+    t = tab
+    return (Q.into(t("into")).columns("a").insert(1)
+            .on_conflict(fld(t("conflict_target"), "id")).where(fld(t("conflict_where"), "cw") > 0).where(fld(t("conflict_where2"), "cx") > 1)
+            .do_nothing())
+
+
 def s_insert_select(tab, Q=Query):
     t = tab
     return Q.into(t("into")).columns("a").from_(t("from")).select(fld(t("select"), "s")).where(fld(t("where"), "w") == 3)
@@ -271,7 +286,7 @@ def s_delete_using(tab, Q=Query):
     return Q.from_(t("from")).delete().where(fld(t("where"), "w").isin(Q.from_(t("in_from")).select(fld(t("in_sel"), "i")).where(fld(t("in_where"), "q") == fld(t("corr"), "q"))))
 
 
-STMTS = {f.__name__[2:]: f for f in (s_cte_update, s_cte_insert_values, s_cte_delete, s_cte_terms, s_setop_nested, s_setop_nested_top, s_update_where_foreign, s_from_multi, s_from_first_multi, s_on_subquery, s_update_set_subquery, s_twins, s_nested, s_from_nested, s_pg_returning_star, s_pg_insert_returning, s_delete_using, s_select, s_select2, s_cross, s_cte, s_insert, s_insert_select, s_update, s_update_from, s_update_join,
+STMTS = {f.__name__[2:]: f for f in (s_insert_both_wheres, s_insert_target_where_only, s_cte_update, s_cte_insert_values, s_cte_delete, s_cte_terms, s_setop_nested, s_setop_nested_top, s_update_where_foreign, s_from_multi, s_from_first_multi, s_on_subquery, s_update_set_subquery, s_twins, s_nested, s_from_nested, s_pg_returning_star, s_pg_insert_returning, s_delete_using, s_select, s_select2, s_cross, s_cte, s_insert, s_insert_select, s_update, s_update_from, s_update_join,
                                       s_delete, s_pg_returning, s_pg_distinct_on, s_setop)}
 
 
